@@ -21,7 +21,14 @@ ADVERSARIAL = [
     "name only.", ".unit only", ": descr only", "a:b", "a:b.c", "a.b:c", "12:30:45", "1000 lbf", ". 1000 lbf : x", "\\", "\\n", "%s %d {}",
     "a" + " " * 200 + "b", "=", "<xml>", "0", "-999.25", "1e400", "nan", "inf.", ",", ";", "?.?:?", "MNEM .UNIT VALUE : DESCR : MORE : COLONS",
     "tab\there", "end.", "UNKNOWN", "A:1", ".A", "..A", "A..", "A . . B",
+    "SERIAL. 18446744073709551616 : twenty digits", "X. 99999999999999999999", "X.M -170141183460469231731687303715884105728 : big",
+    "Y. 1e999 : overflow", "Z. 9" + "9" * 400, "Q. 0x1F : hex", "R. 1_000 : underscore", "T. 1e : half exponent",
+    "U. --5 : x", "V. 5,,5 : x", "W 1.5.5 : x", "remark : see rev. 2", ":.", "'q' : \"a.b\"", "a : b . c : d",
 ]
+MN = ["X", "SERIAL", "A B", "q", "LONGNAME_123", "1", "-"]
+VALS = ["18446744073709551616", "99999999999999999999999", "-9223372036854775809", "1e999", "-1e-999", "0x10", "1_0", "1e", "e5", "+-1",
+        "1,5", "1,,5", "12:30", "NaN", "Infinity", "-inf", "", " ", "1.", ".", "5 5", "1e5e5"]
+
 STEER = ("VERS", "WRAP", "DLM", "NULL")
 PRINTABLE = string.ascii_letters + string.digits + string.punctuation + "     "
 
@@ -154,8 +161,13 @@ class C19(Prop):
         junk = []
         for _ in range(g.choice([1, 1, 1, 2, 3, 5])):
             for _try in range(10):
-                if g.random() < 0.5:
+                q = g.random()
+                if q < 0.4:
                     txt = g.choice(ADVERSARIAL)
+                elif q < 0.6:
+                    # structured junk: a well-formed looking line around an extreme or malformed value
+                    txt = "%s%s.%s%s%s%s%s" % (g.choice(MN), g.choice(["", " "]), g.choice(["", "M", "1000 lbf", "."]), g.choice([" ", "   "]),
+                                               g.choice(VALS), g.choice(["", " :", " : descr", ":"]), g.choice(["", " x"]))
                 else:
                     txt = "".join(g.choice(PRINTABLE) for _ in range(g.randint(1, 40)))
                 if g.random() < 0.15:
